@@ -518,7 +518,18 @@ class Run:
         self.exit_thread = self.helper(go)
         # the exit's own stop() has to land before we look again
         deadline = time.monotonic() + WAIT
-        while not self.exit_done and self.portal._event_loop_thread_id is not None:  # bounded wait only
+        def still_running() -> bool:
+            # the public way to ask "has stop() landed?": a stopped portal refuses start_task_soon
+            tid = getattr(self.portal, "_event_loop_thread_id", False)
+            if tid is not False:
+                return tid is not None
+            try:
+                self.portal._check_running()  # type: ignore[attr-defined]
+                return True
+            except BaseException:  # noqa: BLE001
+                return False
+
+        while not self.exit_done and still_running():  # bounded wait only
             if time.monotonic() > deadline:
                 raise HarnessError("exit never stopped the portal")
             time.sleep(0.0002)
